@@ -42,4 +42,9 @@ CHECKS = {
         "note": "Trusted: z3, asyncio on the virtual-time loop, CrossHair for the lemma. Frames are injected as objects (wire decoding is C02/C03). Bounds: 1-3 queued sends, free reactions for the first 5-7 DATA transmissions, at most 1-2 off-instant reactions and one stale ACK per run.",
         "technique": SYMX + "; CrossHair (symbolic floats) for the timeout-clamp lemma",
     },
+    "C11": {
+        "text": "Real Gateway + real AshProtocol + recording transport/application on a virtual-time loop; NCP frames come as wire bytes from the independent reference encoder. Solver-decided: scenario (RSTACK / ERROR in time, nothing, late, twice, before the request, other frame types, connection loss clean / with error / EOF, early or just before the timeout), the 8-bit code (all 256 values of RSTACK and of ERROR are explored as path classes), the frame numbers before the reset, which waiters are pending. Per path: request bytes 1A C0 38 BC 7E, completion iff a software-reset RSTACK arrived while waiting and at that instant, TimeoutError exactly at the reset timeout otherwise, every other code reported as failure exactly once with its code and completing nothing, a second request after a timed-out one is a full request, numbering restarts at zero in both directions, every waiter released with the connection error on loss.",
+        "note": "Trusted: z3 (choices only; all data is realised), asyncio on the virtual-time loop, refs/ashref.py. Known finding (open): ERROR frame with code 0x0B completes the handshake. Bounds: at most two consecutive reset requests; loss at two instants.",
+        "technique": SYMX,
+    },
 }
